@@ -714,7 +714,17 @@ REPO_EXAMPLES = [
     "\ndef fn():\n    return\n    def i():\n        i()\n",
 ]
 
-EXTRA_EXAMPLES = [
+def _dup_and_wide_sources():
+    """equal-key duplicates in a constant table (two folded NaNs; on <=3.9 also two folded default tuples) TOGETHER
+    with an entry whose index is beyond the small-int cache (>= 257) and that is used more than once: both in module
+    code and in a function with a docstring"""
+    body = ["a = 1e999-1e999", "b = 1e999-1e999"] + ["v%d = %d" % (i, 1000 + i) for i in range(262)] + ["w = 1259", "u = 1261", "t = 1261"]
+    mod = "\n".join(body) + "\n"
+    fn = "def f(p=(1, 2), q=(1, 2)):\n    'doc'\n" + "".join("    %s\n" % l for l in body) + "    return w\ny = (1, 2)\n"
+    return [mod, fn]
+
+
+EXTRA_EXAMPLES = _dup_and_wide_sources() + [
     # shapes named in DESIGN section 7.4 / section 8 (rare feature classes)
     "def f():\n return\n def g(): pass\n",
     "if 0:\n def g(): pass\n",
@@ -847,12 +857,24 @@ def except_list_sweep():
     return out
 
 
+def zero_width_after_boundary_sources():
+    """an assignment whose target is a conditional expression with a constant-true test (folded away by the
+    peephole pass on <=3.9, which leaves zero-width line entries behind) and whose value sits `gap` lines further
+    down: the line table then holds a backward step of exactly -gap directly followed by a zero-width negative
+    entry; gap is swept across the one-byte line-delta boundaries"""
+    out = []
+    for gap in (125, 126, 127, 128, 129, 130, 253, 254, 255, 256, 257):
+        for outer_gap in (1, 2, 3):
+            out.append("y = 0\n(k\n" + "\n" * (outer_gap - 1) + " if f'a'\n else k2).attr = (\n" + "\n" * (gap - 2) + " v)\nw = 1\n")
+    return out
+
+
 def example_cases():
     out = []
     for src in REPO_EXAMPLES + EXTRA_EXAMPLES:
         for opt in (0, 2):
             out.append({"src": src, "mode": "exec", "optimize": opt, "min_version": 7, "_label": "examples"})
-    for src in many_cells_sources() + except_list_sweep():
+    for src in many_cells_sources() + except_list_sweep() + zero_width_after_boundary_sources():
         out.append({"src": src, "mode": "exec", "optimize": 0, "min_version": 7, "_label": "examples"})
     for i in range(39):  # _test_minimized/*.py are the first corpus entries
         out.append({"corpus": i, "optimize": 0, "min_version": 7, "_label": "repo_minimized"})
